@@ -416,10 +416,57 @@ func (c *concRun) reader(tid int, r *Rng, cfg concCfg, log *[]*hcall) {
 				return nil
 			})
 			h.result = "v" + strconv.Itoa(v) + "!" + l
-		case k < 90:
+		case k < 86:
 			h.payload = "all"
 			v, l := listAll(c.f.Iter())
 			h.result = "v" + strconv.Itoa(v) + "!" + l
+		case k < 90:
+			// one sequence VALUE (Iter.Prefix over all methods from "/", which is All) shared by three goroutines and
+			// ranged again afterwards, once stopped early: an Iter is a point-in-time view, every traversal of it yields
+			// the same listing, whoever runs it and however often
+			h.payload = "all"
+			it := c.f.Iter()
+			seq := it.Prefix(it.Methods(), "/")
+			listSeq := func() (int, string) {
+				ver := -1
+				var items []string
+				for m, r := range seq {
+					if r.Pattern() == verPattern {
+						ver = verOfRoute(r)
+						continue
+					}
+					if isVRoute(r.Pattern()) {
+						items = append(items, entry(m, r))
+					}
+				}
+				return ver, sortedJoin(items, "+")
+			}
+			var sw sync.WaitGroup
+			res := make([]string, 3)
+			for g := 0; g < 3; g++ {
+				sw.Add(1)
+				go func() {
+					defer sw.Done()
+					defer func() {
+						if p := recover(); p != nil {
+							res[g] = fmt.Sprintf("panic: %v", p)
+						}
+					}()
+					v, l := listSeq()
+					res[g] = "v" + strconv.Itoa(v) + "!" + l
+				}()
+			}
+			sw.Wait()
+			for range seq {
+				break
+			}
+			v, l := listSeq()
+			h.result = "v" + strconv.Itoa(v) + "!" + l
+			for g := 0; g < 3; g++ {
+				if res[g] != h.result {
+					c.oracle(fmt.Sprintf("reader %d: one Iter.Prefix sequence ranged by several goroutines / repeatedly gave different listings: %s vs %s", tid, clipS(res[g], 200), clipS(h.result, 200)))
+				}
+			}
 		default:
 			if cfg.hw == 0 {
 				h.payload = "all"
@@ -816,4 +863,11 @@ func genConc(r *Rng, tier string, n int, emit func(string)) {
 		}
 		emit(fmt.Sprintf("conc\tw=%d;hw=%d;r=%d;txn=%d;wn=%d;rn=%d;procs=%d;seed=%d", s.w, s.hw, s.rd, s.txn, wn, rn, procs, r.Intn(1000000)))
 	}
+}
+
+func clipS(s string, n int) string {
+	if len(s) > n {
+		return s[:n] + "…"
+	}
+	return s
 }
